@@ -1296,11 +1296,12 @@ Proof.
   induction fuel as [|f IHf]; intros n Hn; [lia|]. cbn [dec_aux].
   destruct (n / 10 =? 0) eqn:E.
   - apply Nat.eqb_eq in E. apply Nat.div_small_iff in E; [|lia].
-    unfold dec_value. simpl fold_left. rewrite digit_val_of. rewrite Nat.mod_small by lia. lia.
+    unfold dec_value. cbn [fold_left]. rewrite digit_val_of. rewrite Nat.mod_small by lia. lia.
   - apply Nat.eqb_neq in E. rewrite dec_aux_acc. rewrite dec_value_snoc, digit_val_of.
     assert (Hlt : n / 10 < n).
     { apply Nat.div_lt; [|lia]. destruct n; [simpl in E; congruence|lia]. }
-    rewrite IHf by lia. pose proof (Nat.div_mod n 10). lia.
+    rewrite IHf by lia. pose proof (Nat.div_mod n 10 ltac:(lia)) as Hdm.
+    remember (n / 10) as q. remember (n mod 10) as m. lia.
 Qed.
 
 Lemma dec_aux_digits : forall fuel n acc,
@@ -1308,7 +1309,8 @@ Lemma dec_aux_digits : forall fuel n acc,
 Proof.
   induction fuel as [|f IHf]; intros n acc H; [exact H|]. cbn [dec_aux].
   assert (Hd : Forall (fun d => (48 <= d <= 57)%N) (N.of_nat (48 + n mod 10) :: acc)).
-  { constructor; [|exact H]. pose proof (Nat.mod_upper_bound n 10). lia. }
+  { constructor; [|exact H]. pose proof (Nat.mod_upper_bound n 10 ltac:(lia)) as Hm.
+    remember (n mod 10) as m. lia. }
   destruct (n / 10 =? 0); [exact Hd|]. apply IHf. exact Hd.
 Qed.
 
@@ -1322,3 +1324,25 @@ Proof.
   - apply dec_aux_digits. constructor.
 Qed.
 Print Assumptions to_decimal_spec.
+
+(* ================================================================== *)
+(* 9. Justification of `char_len` as a model of char::len_utf8         *)
+(* ================================================================== *)
+
+Lemma valid_aux_cont_run : forall k r, valid_utf8_aux r k = true -> cont_run r = k.
+Proof.
+  induction k as [|k IHk]; intros r H.
+  - apply valid_aux_starts in H. destruct r as [|b r]; [reflexivity|]. simpl in *.
+    destruct (is_cont b); [discriminate|reflexivity].
+  - destruct r as [|b r]; [discriminate|]. simpl in H. apply andb_true_iff in H.
+    destruct H as [Hc H]. simpl. rewrite Hc. f_equal. apply IHk. exact H.
+Qed.
+
+(* in valid UTF-8 the chunk (lead byte + continuation bytes) has the length announced by
+   its lead byte, i.e. len_utf8 of the decoded character *)
+Theorem valid_char_len : forall b r,
+  valid_utf8_aux (b :: r) 0 = true -> char_len (b :: r) = lead_len b.
+Proof.
+  intros b r H. simpl in H. destruct (lead_len b) as [|k] eqn:E; [discriminate|].
+  simpl. f_equal. apply valid_aux_cont_run. exact H.
+Qed.
